@@ -97,10 +97,10 @@ class C17(runner.Check):
 			"via module attribute match.Parallel"],
 	}
 	tiers = {
-		"quick": {"legs": [("sim", 700), ("faulty", 200), ("realpool", 10)],
+		"quick": {"legs": [("sim", 1500), ("faulty", 400), ("realpool", 10)],
 			"wall_cap_s": 900, "fresh_procs": 2, "chunk": 10},
-		"thorough": {"legs": [("sim", 30000), ("faulty", 8000), ("realpool", 120)],
-			"wall_cap_s": 5400, "fresh_procs": 4, "chunk": 50},
+		"thorough": {"legs": [("sim", 300000), ("faulty", 80000), ("realpool", 300)],
+			"wall_cap_s": 5400, "fresh_procs": 4, "chunk": 100},
 	}
 
 	def prepare(self, tier, fresh=False):
